@@ -49,6 +49,39 @@ CHECKS = {
    technique="property testing of a cost bound: distinct Persist.Load names per diff call vs. 2D+2 from the reference node sets",
    text="DiffIter and DiffLinks on freshly opened, cache-less trees may load at most 2D+2 distinct nodes (D = symmetric difference of the reachable node sets) and none for identical versions; generated pairs plus enumerated large trees (up to 3000 / 60000 keys) differing in 1-5 keys.",
    note="Loads counted on a recording store without cache."),
+
+ "C03": dict(cat="fault_enumeration", design="DESIGN.md §4 C03",
+   technique="fault injection + harness-owned completion order (gated Persist) in generated flush scenarios; enumeration of every single failing Store position",
+   text="MakeRoot runs against a gated store that assigns each arriving Store call a generated fate (delay class, straggler held until MakeRoot has returned or 5 ms, failure); on success an atomic in-flight counter must be zero at return and every node reachable from the returned root must be in the store under the name of its own bytes; any failed Store must surface as an error, the tree must stay usable and a retry must produce a complete root; every single failing arrival position is enumerated for flushes of <=12 writes; a second store with another prefix shares the cache.",
+   note="No timing enters a verdict; completion orders are sampled through delays, not enumerated."),
+ "C11": dict(cat="exploration", design="DESIGN.md §4 C11",
+   technique="randomised concurrent programs under the Go race detector (-race build), frozen lock-free shared environment + real ARC cache environment, per-goroutine model oracle",
+   text="2-8 goroutines each own a tree (loaded from shared roots, cloned, or fresh) and run generated programs; in the frozen environment all shared base nodes sit in maps that are never written and are read without locks, with per-tree private overlays, so any write to a shared node is reported by the happens-before race detector regardless of schedule; the real environment shares mast's ARC cache and in-memory store. Violation = a DATA RACE report (process halts, the case was written beforehand) or a tree deviating from its own model.",
+   note="Schedules are sampled, not enumerated; a race cannot be shrunk, the replay is the whole case."),
+ "C12": dict(cat="fault_enumeration", design="DESIGN.md §4 C12",
+   technique="exhaustive single-fault enumeration per generated (tree, operation): every Load / KeyCompare / Marshal call position, plus generated pairs",
+   text="A fault-free dry run counts the fallible callbacks of one operation on a deterministically rebuilt tree; every position is then failed in turn (tree rebuilt each time); when the call returns an error the tree must equal its pre-state (Size, Height, contents) and the retried call must give the normal result and post-state. Two open known findings (Insert growth phase, Delete shrink loop) are excluded by their error call site and reported as KNOWN-FINDING.",
+   note="Calls that swallow a fault or panic under fault are outside the statement: counted, not judged."),
+ "C14": dict(cat="exploration", design="DESIGN.md §4 C14",
+   technique="golden reference vectors frozen from the pinned commit + differential property testing against an independent re-implementation of layer, order, hash and encoders",
+   text="golden/vectors.json (names, defaults, 6x877 layers, 1172 comparisons, 294 persisted trees with every node's bytes) is re-derived from the tree under test on every run and the frozen bytes must load with the expected entries; generated keys of all 13 built-in types and generated pairs are compared with the reference layer function and order.",
+   note="'Every release and host' is sampled on this host; the golden file was cross-checked against harness/ref when generated."),
+ "C16": dict(cat="exploration", design="DESIGN.md §4 C16",
+   technique="property testing of cost bounds: distinct Persist.Load names per API call on a recording store without cache",
+   text="Persisted trees (generated histories; enumerated large trees of up to 2500/40000 keys) are re-opened cache-less for each probe; LoadMast/Clone/Cursor <= 1 node, Get <= h+1, Insert/Delete at unchanged height <= 2(h+1), and on large trees a single cursor move or a SeekIter stopped at its first entry <= 4(h+1)+4.",
+   note="The un-numbered clause is checked with a generous sub-linear cap only where the tree is large enough to tell."),
+ "C17": dict(cat="fault_enumeration", design="DESIGN.md §4 C17",
+   technique="process-level crash-point enumeration: re-executed child with RLIMIT_FSIZE = cut offset (killed by SIGXFSZ or EFBIG returned), every offset for small payloads",
+   text="file.Persist.Store runs in a child process whose file-size limit is the cut offset: the kernel kills it at that byte (crash) or the write returns an I/O error; afterwards a fresh store must either not find the node or return it complete, success must mean complete, and a later Store must repair. Every offset 0..len is enumerated for 5 payload sizes in both modes; generated larger payloads and repeated cuts.",
+   note="Tearing below the write syscall is not modelled."),
+ "C18": dict(cat="exploration", design="DESIGN.md §4 C18",
+   technique="stateful model-based property testing of the Persist contract across backends with a recording, fault-injecting fake S3 client",
+   text="Programs of store / re-store / concurrent same-name store / load / load-missing (+ injected Put/Get/body failures for S3) over in-memory, file and S3 backends against a name->bytes model; the fake S3 client must hold exactly bucket / prefix+name objects; thorough adds gofakes3 over HTTP.",
+   note="A name is always re-written with the same bytes."),
+ "C19": dict(cat="exploration", design="DESIGN.md §4 C19",
+   technique="mutation-based property testing with an independent classifier oracle (+ native coverage-guided fuzzing of the top-node bytes in the thorough tier)",
+   text="Valid persisted roots are perturbed (format, missing/truncated/bit-flipped/random/crafted top node with mismatched counts, swapped/duplicated/undecodable keys, huge counts, reversed/constant KeyCompare, raised height, changed branch factor); an independent classifier decides from bytes+root+loader configuration whether the root is bad by the property's list; bad => LoadMast must return an error (no panic, no crash, no tree).",
+   note="One direction only; unclassified perturbations are not judged."),
 }
 
 ALL = ["C%02d" % i for i in range(1, 20)]
